@@ -81,6 +81,30 @@ theorem C04_consts_gs2_spec_columns (y : Gs2.Spec.Style) :
 theorem C04_consts_gs2_spec_typed_keys :
     sameSet Gs2.Spec.typedKeys (keys Consts.gs2_typed_keys) = true := by decide
 
+/-- MODEL: `two::query` takes exactly the source's keys out of the variables, in the source's order, and the server
+is passworded exactly when `password` is the text the source compares with (`"1"`) -/
+theorem C04_consts_gs2_model_typed_keys :
+    Gs2.parseBody = (do
+      let vars ← Gs2.getServerVars
+      let players ← Gs2.getPlayers
+      let (numText, vars) := Gs2.take vars (Consts.gs2_typed_keys.getD 0 "")
+      let reported ← Par.lift (Gs2.optParse numText 64)
+      let (minText, vars) := Gs2.take vars (Consts.gs2_typed_keys.getD 1 "")
+      let playersMinimum ← Par.lift (Gs2.optParse minText 32)
+      let (name, vars) := Gs2.take vars (Consts.gs2_typed_keys.getD 2 "")
+      let name ← Par.lift (okOr name .packetBad)
+      let (map, vars) := Gs2.take vars (Consts.gs2_typed_keys.getD 3 "")
+      let map ← Par.lift (okOr map .packetBad)
+      let (pw, vars) := Gs2.take vars (Consts.gs2_typed_keys.getD 4 "")
+      let pw ← Par.lift (okOr pw .packetBad)
+      let teams ← Gs2.getTeams
+      let (maxText, vars) := Gs2.take vars (Consts.gs2_typed_keys.getD 5 "")
+      let maxText ← Par.lift (okOr maxText .packetBad)
+      let playersMaximum ← Par.lift (okOr (parseUnsigned 32 maxText) .typeParse)
+      pure { name, map, hasPassword := pw == asciiBytes Consts.gs2_password_true, teams, playersMaximum,
+             playersOnline := Gs2.playersOnline reported players.length, playersMinimum, players, unusedEntries := vars })
+    ∧ Consts.gs2_typed_keys.length = 6 := ⟨rfl, rfl⟩
+
 /-! ### GameSpy 3 -/
 
 /-- the `splitnum` tag, the "last packet" flag and the packet number mask of a data packet -/
